@@ -89,7 +89,8 @@ func (tr *Trans) ret(fr *Frame, x *ssa.Return) {
 			}
 			tr.cur.assert(te.E, tr.restrict(tr.ob("post", anchor, x.Pos(), cl.Src, props), cl))
 		}
-		if len(tr.contract.AtReturn) > 0 {
+		if len(tr.contract.AtReturn) > 0 && x.Pos().IsValid() {
+			// (the position-less return of the synthetic recover block is not a return of the source program)
 			// clauses over the locals as they are at this return (a local declared further down has its zero value)
 			ps := tr.pointScope(fr, x.Pos())
 			tr.zeroLaterLocals(ps, fr, x.Pos())
